@@ -8,7 +8,8 @@
 From PdfV Require Import Base.Prelude Cache.Model.
 
 Definition DIGEST_MOD : N := 2305843009213693951.   (* 2^61 - 1 *)
-Definition dstep (h x : N) : N := (h * 1000003 + x + 1) mod DIGEST_MOD.
+Definition dstep (h x : N) : N :=
+  let t := (h * 1000003 + x + 1) mod DIGEST_MOD in (t * t + t + 7) mod DIGEST_MOD.
 Definition item (o : outcome) : list N :=
   match o with Ok d => [0; d] | Err e => [1; e] | Panic s => [2; s] | OutOfFuel => [3; 0] end.
 (* cache.rs: Node::digest *)
